@@ -14,7 +14,7 @@ import os
 ID = "C12"
 LEVEL = "exploration"
 RULE = (
-    "alphabet of 11 requests (shapes 9x7 .. 48x40, odd sizes, truncated / over-requested modes, single and double precision, footprint and "
+    "alphabet of 15 requests (incl. footprint/dispersion twins on identical geometry and same-shape different-physics pairs) (shapes 9x7 .. 48x40, odd sizes, truncated / over-requested modes, single and double precision, footprint and "
     "dispersion, default / zero / explicit halo, analytic, multi-level); histories of 60 operations drawn from {solve, set NUM_THREADS in "
     "{1,2,4,8}, reset_fft_manager, get_fft_manager(k), fftw_wisdom.pkl dropped / truncated / garbage / foreign, allocation noise}; 16 "
     "history runners execute concurrently (loaded machine).  non-trivial = a solve preceded by a different request, a thread change or a "
@@ -68,10 +68,16 @@ def requests():
     R["r9"] = dict(R["r8"], precision="single")
     # same shapes as r0 (grid, modes, number of nodes), different physics: a shape-keyed memo would confuse them
     R["r10"] = dict(R["r0"], profiles=(p[1] * 1.2, -p[0] * 0.7, p[2] * 1.3, p[3] * 0.8, p[4] * 1.1))
+    # mode twins: identical geometry, modes, halo and measurement point, footprint vs dispersion (state keyed by geometry only would mix them)
+    R["r11"] = dict(R["r2"], footprint=False, srf_flx=rng.normal(size=(20, 24)))
+    R["r12"] = dict(R["r5"], footprint=False, srf_flx=rng.normal(size=(32, 32)))
+    R["r13"] = dict(R["r0"], footprint=True, meas_pt=(0.0, 0.0))
+    R["r14"] = dict(R["r4"], footprint=True)
     return R
 
 
 PAIRS = {"r1": "r0", "r3": "r2", "r9": "r8"}  # single -> its double counterpart
+TWINS = {"r11": "r2", "r12": "r5", "r13": "r0", "r14": "r4", "r10": "r0"}  # same geometry, other mode / other physics
 
 
 def do_solve(req):
@@ -165,7 +171,7 @@ def run_case(case):
     R = requests()
     names = list(R)
     pool = [str(x) for x in rng.choice(names, size=int(rng.integers(6, 11)), replace=False)]
-    for s_, d_ in PAIRS.items():  # keep precision pairs together
+    for s_, d_ in list(PAIRS.items()) + list(TWINS.items()):  # keep precision pairs and mode twins together
         if s_ in pool and d_ not in pool:
             pool.append(d_)
     viol, sigs = [], set()
